@@ -49,6 +49,20 @@ void run_on(int thread, const std::function<void()> &f) {
   w.cv.wait(l, [&] { return w.done; });
 }
 
+// three unrelated C++ types known to every engine; conversions between them are added per engine instance ("conv" op)
+struct CA { int v; };
+struct CB { int v; };
+struct CC { int v; };
+void equip(chaiscript::ChaiScript_Basic &e) {
+  e.add(chaiscript::user_type<CA>(), "CA");
+  e.add(chaiscript::user_type<CB>(), "CB");
+  e.add(chaiscript::user_type<CC>(), "CC");
+  e.add(chaiscript::fun([](int v) { return CA{v}; }), "make_ca");
+  e.add(chaiscript::fun([](int v) { return CB{v}; }), "make_cb");
+  e.add(chaiscript::fun([](const CB &b) { return b.v; }), "take_cb");
+  e.add(chaiscript::fun([](const CC &c) { return c.v; }), "take_cc");
+}
+
 alignas(64) unsigned char g_buf[2][sizeof(chaiscript::ChaiScript_Basic)];
 chaiscript::ChaiScript_Basic *g_engine[NSLOTS] = {nullptr, nullptr, nullptr, nullptr};
 
@@ -69,6 +83,7 @@ static mj::Value cmd_c14(const mj::Value &rq) {
       destroy(slot);
       if (slot < 2) g_engine[slot] = new (g_buf[slot]) chaiscript::ChaiScript_Basic(verif_stdlib(), verif_parser(true));
       else g_engine[slot] = new chaiscript::ChaiScript_Basic(verif_stdlib(), verif_parser(true));
+      equip(*g_engine[slot]);
     });
     r.set("address", static_cast<long>(reinterpret_cast<std::uintptr_t>(g_engine[slot]) & 0xffffff));
     return r;
@@ -91,6 +106,21 @@ static mj::Value cmd_c14(const mj::Value &rq) {
       r.set("locals", std::move(names));
     });
     r.set("out", take_stdout());
+    return r;
+  }
+  if (op == "conv") {
+    // kind a2b / a2c / b2c: a user conversion private to this engine instance; k makes its result recognisable
+    if (!g_engine[slot]) throw std::runtime_error("c14: no engine in slot");
+    const std::string kind = rq.at("kind").str();
+    const int k = static_cast<int>(rq.at("k").num());
+    run_on(thread, [&] {
+      guarded(r, [&]() {
+        if (kind == "a2b") g_engine[slot]->add(chaiscript::type_conversion<CA, CB>([k](const CA &a) { return CB{a.v + k}; }));
+        else if (kind == "a2c") g_engine[slot]->add(chaiscript::type_conversion<CA, CC>([k](const CA &a) { return CC{a.v + k}; }));
+        else g_engine[slot]->add(chaiscript::type_conversion<CB, CC>([k](const CB &b) { return CC{b.v + k}; }));
+        return chaiscript::Boxed_Value(0);
+      });
+    });
     return r;
   }
   throw std::runtime_error("c14: unknown op " + op);
